@@ -33,6 +33,8 @@ pub const CLASS_WRITE: i32 = 1;
 pub const CLASS_FSYNC: i32 = 2;
 /// writes that land in the two header pages (file offset below `below`)
 pub const CLASS_HEADER_WRITE: i32 = 3;
+/// the nth mmap of the database file fails with ENOMEM
+pub const CLASS_MMAP: i32 = 4;
 pub const KIND_FAIL: i32 = 0;
 pub const KIND_SHORT: i32 = 1;
 pub const KIND_FAIL_FROM: i32 = 2;
